@@ -154,6 +154,8 @@ func (c *tcCase) runReal(cfg string) (out string) {
 	if err != nil {
 		return "buildfail " + common.HexS(err.Error())
 	}
+	defer func() { out = canonPkg(out, b.Pkg) }()
+	body := bytes.ReplaceAll(c.Body, []byte(pkgPlaceholder), []byte(b.Pkg))
 	md := b.Msg(c.Root)
 	vals := url.Values{}
 	for _, q := range c.Q {
@@ -179,7 +181,7 @@ func (c *tcCase) runReal(cfg string) (out string) {
 	}
 	if c.Op == "tc" {
 		msg := method.Input.New()
-		if err := in.Transcode(c.Body, msg); err != nil {
+		if err := in.Transcode(body, msg); err != nil {
 			return errTok(err)
 		}
 		return "ok " + msgTok(msg.ProtoReflect())
@@ -188,7 +190,7 @@ func (c *tcCase) runReal(cfg string) (out string) {
 	if !ok {
 		return "nostream"
 	}
-	stream := st.Stream(bytes.NewReader(c.Body))
+	stream := st.Stream(bytes.NewReader(body))
 	var res []string
 	call := func() (r string, stop bool) {
 		defer func() {
@@ -224,6 +226,13 @@ func (c *tcCase) decOracle() (out string) {
 	if err != nil {
 		return "buildfail"
 	}
+	defer func() { out = canonPkg(out, b.Pkg) }()
+	body := bytes.ReplaceAll(c.Body, []byte(pkgPlaceholder), []byte(b.Pkg))
+	// A marshaler of its own with the default options: the oracle must not share state with the
+	// process-wide transcoding.DefaultJSONMarshaler the real transcoder uses.
+	uo := transcoding.DefaultJSONMarshaler.UnmarshalOptions
+	uo.Resolver = nil
+	oracleMarshaler := &transcoding.JSONMarshaler{MarshalOptions: transcoding.DefaultJSONMarshaler.MarshalOptions, UnmarshalOptions: uo}
 	md := b.Msg(c.Root)
 	one := func(decode func(protoreflect.Message, protoreflect.FieldDescriptor) (bool, error)) (res string) {
 		defer func() {
@@ -266,13 +275,13 @@ func (c *tcCase) decOracle() (out string) {
 	}
 	if c.Op == "tc" {
 		return one(func(m protoreflect.Message, fd protoreflect.FieldDescriptor) (bool, error) {
-			if len(c.Body) == 0 {
+			if len(body) == 0 {
 				return false, nil
 			}
-			return true, transcoding.DefaultJSONMarshaler.Unmarshal(b.Types, c.Body, m, fd)
+			return true, oracleMarshaler.Unmarshal(b.Types, body, m, fd)
 		})
 	}
-	dec := transcoding.DefaultJSONMarshaler.NewDecoder(b.Types, bytes.NewReader(c.Body))
+	dec := oracleMarshaler.NewDecoder(b.Types, bytes.NewReader(body))
 	var res []string
 	for i := 0; i < c.Calls; i++ {
 		r := one(func(m protoreflect.Message, fd protoreflect.FieldDescriptor) (bool, error) {
@@ -418,6 +427,15 @@ func execPF(kind, text string) (out string) {
 		return "okm " + entriesTok(es)
 	}
 	return "ok " + valTok(fd, msg.Get(fd))
+}
+
+// pkgPlaceholder stands for the run-time package of the schema inside body bytes (type URLs of
+// google.protobuf.Any values); Exec substitutes the package of each registry configuration.
+const pkgPlaceholder = "@PKG@"
+
+// canonPkg replaces the (hex-rendered) run-time package name in an output by the placeholder.
+func canonPkg(out, pkg string) string {
+	return strings.ReplaceAll(out, common.HexS(pkg)[1:], common.HexS(pkgPlaceholder)[1:])
 }
 
 func sortStrings(s []string) {
